@@ -51,7 +51,7 @@ Section oneshot.
 
   Lemma oneshot_inv_step s s' : wf s -> oneshot_inv s -> step_inv fx false s s' -> oneshot_inv s'.
   Proof.
-    intros Hwf Hoi [t a e ok a' os ob Ha Hst Hact Hh Hmsg Herr Hm Hinv _ Hsl _ _ _ _|Hact Hib Hh Hsl Hrq _|ts Hw _ _ _ _ _ _ _];
+    intros Hwf Hoi [t a e ok a' os ob Ha Hst Hact Hh Hmsg Herr Hm Hinv _ Hsl _ _ _ _ _|Hact Hib Hh Hsl Hrq _|ts Hw _ _ _ _ _ _ _];
       [| |done].
     - destruct (Hwf t a Ha) as [Hid Hg].
       assert (Hni : ~ invalidating e).
